@@ -278,6 +278,10 @@ def chunks(lst, n):
     return [lst[i:i + k] for i in range(0, len(lst), k)]
 
 
+CHUNK_WALL_S = int(os.environ.get("VERIF_CHUNK_WALL_S", "900"))
+JOB_WALL_S = int(os.environ.get("VERIF_JOB_WALL_S", "150"))
+
+
 def run_driver_parallel(script, jobs, nproc=8, hashseeds=(0,), timeout=3600, extra_env=None):
     """Split jobs over processes (round-robin over hash seeds); returns results aligned with jobs plus the seed used."""
     import concurrent.futures as cf
@@ -287,8 +291,19 @@ def run_driver_parallel(script, jobs, nproc=8, hashseeds=(0,), timeout=3600, ext
     def work(a):
         ci, idxs = a
         hs = hashseeds[ci % len(hashseeds)]
-        r = run_driver(script, {"jobs": [jobs[i] for i in idxs]}, hashseed=hs, timeout=timeout, extra_env=extra_env)
-        return idxs, r["results"], hs
+        try:
+            r = run_driver(script, {"jobs": [jobs[i] for i in idxs]}, hashseed=hs, timeout=min(timeout, CHUNK_WALL_S), extra_env=extra_env)
+            return idxs, r["results"], hs
+        except subprocess.TimeoutExpired:
+            # the code under test did not come back (a loop inside compiled code is out of reach of the driver's own CPU budget): every job of
+            # the chunk is run again on its own under a short wall-clock limit; the ones that hang are "no result" observations, not machinery errors
+            rs = []
+            for i in idxs:
+                try:
+                    rs.append(run_driver(script, {"jobs": [jobs[i]]}, hashseed=hs, timeout=JOB_WALL_S, extra_env=extra_env)["results"][0])
+                except subprocess.TimeoutExpired:
+                    rs.append({"noresult": True, "hung": True, "raised": "no result within %d s" % JOB_WALL_S})
+            return idxs, rs, hs
     res = [None] * len(jobs)
     seeds = [None] * len(jobs)
     with cf.ThreadPoolExecutor(max_workers=nproc) as ex:
